@@ -9,7 +9,7 @@ RD = 'src/parsers/cmap_reader.py::CmapReader.__read'
 TR = 'src/correlation/optical_map.py::OpticalMap.trim'
 
 
-def make_text(maps, rnd, extra_cols, shuffle):
+def make_text(maps, rnd, extra_cols, shuffle, two_colour=False):
     names = ['CMapId', 'ContigLength', 'NumSites', 'SiteID', 'LabelChannel', 'Position', 'StdDev', 'Coverage', 'Occurrence'] + \
             [f'Extra{i}' for i in range(extra_cols)]
     order = list(names)
@@ -19,13 +19,13 @@ def make_text(maps, rnd, extra_cols, shuffle):
     for mid, length, pos in maps:
         n = len(pos)
         for i, p in enumerate(pos):
-            rows.append(dict(CMapId=mid, ContigLength=f"{length:.1f}", NumSites=n, SiteID=i + 1, LabelChannel=1, Position=f"{p:.1f}",
+            rows.append(dict(CMapId=mid, ContigLength=f"{length:.1f}", NumSites=n, SiteID=i + 1, LabelChannel=(rnd.choice((1, 2)) if two_colour else 1), Position=f"{p:.1f}",
                              StdDev='0.0', Coverage='1.0', Occurrence='1.0'))
         rows.append(dict(CMapId=mid, ContigLength=f"{length:.1f}", NumSites=n, SiteID=n + 1, LabelChannel=0, Position=f"{length:.1f}",
                          StdDev='0.0', Coverage='1.0', Occurrence='1.0'))
     if shuffle:
         rnd.shuffle(rows)
-    text = "# CMAP File Version:\t0.1\n# Label Channels:\t1\n#h " + "\t".join(order) + "\n#f " + "\t".join('x' for _ in order) + "\n"
+    text = "# CMAP File Version:\t0.1\n# Label Channels:\t" + ("2" if two_colour else "1") + "\n#h " + "\t".join(order) + "\n#f " + "\t".join('x' for _ in order) + "\n"
     for r in rows:
         text += "\t".join(str(r.get(c, '7.5')) for c in order) + "\n"
     return text
@@ -47,6 +47,12 @@ def run_case(case):
     rnd = random.Random(seed)
     nm = rnd.randint(1, 6)
     idpool = rnd.sample(range(1, 60), nm) if rnd.random() < 0.8 else list(range(1, nm + 1))
+    if rnd.random() < 0.15:
+        # "any ids": merged-run ids beyond 32 bits, some of them equal modulo 2**32
+        base = rnd.choice((2 ** 31, 2 ** 32, 3 * 10 ** 9, 7 * 10 ** 12))
+        idpool = [base + i for i in idpool]
+        if nm >= 2:
+            idpool[1] = idpool[0] + 2 ** 32
     maps = []
     for mid in idpool:
         nl = rnd.choice((0, 0, 1, 2, 3, 5, 8))
@@ -59,7 +65,7 @@ def run_case(case):
         maps.append((mid, length, pos))
     filt = rnd.choice(('none', 'subset', 'superset', 'disjoint', 'empty'))
     ids = {'none': None, 'empty': [], 'subset': idpool[:max(1, nm // 2)], 'superset': idpool + [777], 'disjoint': [888, 999]}[filt]
-    text = make_text(maps, rnd, rnd.randint(0, 3), rnd.random() < 0.7)
+    text = make_text(maps, rnd, rnd.randint(0, 3), rnd.random() < 0.7, two_colour=rnd.random() < 0.15)
     bad = []
     got = None
     try:
@@ -119,7 +125,7 @@ def bounded(repo, tier, seed):
             viol.setdefault(key, dict(key=key, blame=fid, input=dict(seed=case[0]), observed=dict(violated=bad, ids=info['ids'], text=info['text'][:1500]),
                                       required='C17 statement'))
     return result(sum(r[0] for r in res), sum(r[1] for r in res),
-                  "generated CMAP text: 1-6 molecules with arbitrary ids, 0-8 labels each (molecules with only an end-marker row included), coordinates with one "
+                  "generated CMAP text: 1-6 molecules with arbitrary ids (15% beyond 32 bits, two of them equal modulo 2**32), 15% two-colour files (labels on channel 1 or 2), 0-8 labels each (molecules with only an end-marker row included), coordinates with one "
                   "decimal incl. duplicates, shuffled rows, 0-3 extra columns in varying positions, id filters none/empty/subset/superset/disjoint, through "
                   "readQueries/readReferences, compared with an independent parser; trim() applied to every map read; non-trivial = at least two labelled molecules expected",
                   [dict(seed=seeds[0]), dict(seed=seeds[1])], list(viol.values())[:5], exhaustive=False, bounds=f"{n} generated files")
